@@ -835,7 +835,8 @@ func (d *driver) settle() {
 			if d.cgDone && len(d.nextPending) == 0 {
 				d.lab("OA")
 				d.feats["offer-abort-"+d.offErr] = true
-				d.pc = "exited"
+				// leaveGroup(memberID) on the way out (no-op without a member id)
+				d.enterLeave("exit", d.offErr)
 				continue
 			}
 			return
@@ -1243,7 +1244,8 @@ func runE2E(r *rand.Rand, forced string) {
 			}
 		}()
 		if forced == "f5" {
-			// FindCoordinator, JoinGroup ok as member 1, SyncGroup -> 27, nobody calls Next, Close
+			// regression for the former defect F5: FindCoordinator, JoinGroup ok as member 1,
+			// SyncGroup -> 27, nobody calls Next, Close: LeaveGroup for member 1 must be sent
 			d.serveCoordinator("ok")
 			d.lab("Co:ok")
 			d.ob("c")
@@ -1261,6 +1263,21 @@ func runE2E(r *rand.Rand, forced string) {
 			d.noteFail("rb")
 			d.failNG("rb")
 			d.callClose()
+			d.settle() // OA: run leaves the group before it returns
+			if d.pc == "leaveconn" {
+				d.serveCoordinator("ok")
+				d.lab("LC:ok")
+				d.pc = "leavereq"
+				c = d.await("leave", nil)
+				d.ob("l" + memberTok(c.member))
+				if c.member == d.cHeld {
+					d.cLeaveSeen = true
+				}
+				c.reply <- reply{}
+				d.lab("LR:ok")
+				d.feats["leave"] = true
+				d.finishLeave()
+			}
 			d.settle()
 			return
 		}
